@@ -147,6 +147,30 @@ func VerifC14Immutable() {
 			vrtAssert("keeps-resources", vrtDeepEqual(any(q.Networks), any(cur.Networks)) && vrtDeepEqual(any(q.Volumes), any(cur.Volumes)) &&
 				vrtDeepEqual(any(q.Secrets), any(cur.Secrets)) && vrtDeepEqual(any(q.Configs), any(cur.Configs)))
 		}
+		// every service the result still has carries all the fields the operation does not touch
+		neutral := func(sv ServiceConfig) ServiceConfig {
+			sv.DependsOn = nil // pruned by disabling / selecting
+			sv.Environment, sv.EnvFiles = nil, nil
+			sv.Labels, sv.LabelFiles = nil, nil
+			sv.ContainerName = ""
+			if sv.Build != nil {
+				b := *sv.Build
+				b.Args = nil
+				sv.Build = &b
+			}
+			return sv
+		}
+		for _, set := range []Services{q.Services, q.DisabledServices} {
+			for name, got := range set {
+				orig, ok := cur.Services[name]
+				if !ok {
+					orig, ok = cur.DisabledServices[name]
+				}
+				if ok {
+					vrtAssert("service-fields-carried-over", vrtDeepEqual(any(neutral(got)), any(neutral(orig))))
+				}
+			}
+		}
 		vrtAssert("no-service-lost", len(q.Services)+len(q.DisabledServices) == len(cur.Services)+len(cur.DisabledServices) || op == 3 || op == 2)
 		results = append(results, q)
 		snaps = append(snaps, vrtClone(q).(*Project))
